@@ -52,7 +52,7 @@ PROPS["C19"] = {
                   "size 0..65535 against an independent oracle (first NUL, longest valid UTF-8 prefix, exact consumption, hint <= shortfall); run "
                   "with std's real UTF-8 validator and with a byte-wise model that is itself checked against std.",
     "level_note": "Bound: 6-byte buffers. Trusts Kani/CBMC; fmt::format stubbed. Ids inside whole messages are covered by the header harnesses of C02/C14.",
-    "functions": ["parse::dlt_zero_terminated_string", "parse::dlt_zero_terminated_string_intern"],
+    "functions": ["parse::dlt_zero_terminated_string", "parse::dlt_zero_terminated_string_intern", "parse::parse_ecu_id", "parse::dlt_extended_header", "parse::dlt_standard_header", "parse::dlt_storage_header"],
     "bounds": "buffers of 0..6 fully symbolic bytes (symbolic length), size symbolic over 0..65535",
     "outside": "buffers longer than 6 bytes (the function keeps no state across bytes other than 'seen NUL' and the UTF-8 automaton, "
                "whose longest sequence is 4 bytes)",
@@ -62,6 +62,9 @@ PROPS["C19"] = {
         H("c19::c19_zstring_model_utf8", timeout=300, what="oracle comparison with the UTF-8 model"),
         H("c19::c19_zstring_std_utf8", timeout=900, what="same with std's from_utf8"),
         H("c19::c19_utf8_model_vs_std", timeout=600, what="UTF-8 model == std::str::from_utf8 for all inputs up to 4 bytes"),
+        H("c19::c19_ids_extended_header", timeout=600, what="application / context id: all contents of both 4-byte fields"),
+        H("c19::c19_ids_standard_header_ecu", timeout=600, what="ECU id of the standard header: all contents"),
+        H("c19::c19_ids_storage_header_ecu", timeout=600, what="ECU id of the storage header: all contents"),
     ],
 }
 
@@ -111,10 +114,14 @@ PROPS["C18"] = {
         H("c18::c18_u8_off32", timeout=900, what="U8 value, i32 offset"),
         H("c18::c18_u16_off64", timeout=900, what="U16 value, i64 offset"),
         H("c18::c18_i8_off64", timeout=900, what="I8 value, i64 offset"),
+        H("c18::c18_u64_off32_literal_q", timeout=900, what="U64 value (all), i32 offset (all), quantisation in {1, 0.25, 0.125, 3, -1}"),
+        H("c18::c18_u64_off64_literal_q", timeout=900, what="U64 value, i64 offset, literal quantisations"),
+        H("c18::c18_i64_off64_literal_q", timeout=900, what="I64 value, i64 offset, literal quantisations"),
+        H("c18::c18_u32_off64_literal_q", timeout=900, what="U32 value, i64 offset, literal quantisations"),
         H("c18::c18_i8_off32", "thorough", 1800), H("c18::c18_i16_off32", "thorough", 1800), H("c18::c18_i16_off64", "thorough", 1800),
-        H("c18::c18_i32_off64", "thorough", 1800), H("c18::c18_i64_off32", "thorough", 3600), H("c18::c18_i64_off64", "thorough", 3600),
-        H("c18::c18_u8_off64", "thorough", 1800), H("c18::c18_u16_off32", "thorough", 1800), H("c18::c18_u32_off32", "thorough", 1800),
-        H("c18::c18_u32_off64", "thorough", 1800), H("c18::c18_u64_off32", "thorough", 3600), H("c18::c18_u64_off64", "thorough", 3600),
+        H("c18::c18_i32_off64", "thorough", 5400), H("c18::c18_i64_off32", "thorough", 5400), H("c18::c18_i64_off64", "thorough", 7200),
+        H("c18::c18_u8_off64", "thorough", 1800), H("c18::c18_u16_off32", "thorough", 1800), H("c18::c18_u32_off32", "thorough", 3600),
+        H("c18::c18_u32_off64", "thorough", 3600), H("c18::c18_u64_off32", "thorough", 5400), H("c18::c18_u64_off64", "thorough", 7200),
     ],
 }
 
@@ -184,30 +191,32 @@ PROPS["C06"] = {
 
 import json as _json, os as _os
 _cat = _json.load(open(_os.path.join(_os.path.dirname(_os.path.abspath(__file__)), "catalogue.json")))
-_w = ["c02w_storage_header", "c02w_standard_header", "c02w_extended_header",
-      "c02w_payload_nonverbose_control", "c02w_payload_nettrace_le", "c02w_payload_nettrace_be", "c02w_payload_verbose_concat"]
-_d = ["c02d_standard_header_all_bytes", "c02d_extended_header_all_bytes", "c02d_storage_header_fields"]
+_wq = ["c02w_storage_header_id4", "c02w_storage_header_id1", "c02w_standard_header_c0", "c02w_standard_header_c7", "c02w_standard_header_c2",
+       "c02w_standard_header_c5", "c02w_extended_header_id4", "c02w_extended_header_id1"]
+_wt = ["c02w_storage_header_id0", "c02w_storage_header_id3", "c02w_standard_header_c1", "c02w_standard_header_c3", "c02w_standard_header_c4",
+       "c02w_standard_header_c6", "c02w_extended_header_id0", "c02w_extended_header_id3"]
+_w = _wq + ["c02w_payload_nonverbose_control", "c02w_payload_nettrace_le", "c02w_payload_nettrace_be", "c02w_payload_verbose_concat"]
+_d = ["c02d_standard_header_full_length", "c02d_extended_header_full_length"]
+_dt = ["c02d_standard_header_all_bytes", "c02d_extended_header_all_bytes", "c02d_storage_header_fields"]
 PROPS["C02"] = {
     "level": "model_checking", "level_text": "wip", "level_note": "wip", "not_claimed": True,
     "functions": [], "bounds": "", "outside": "", "assumptions": COMMON_ASSUME, "trusted_base": [],
-    "harnesses": [H("c02w::" + n, "quick", 900) for n in _w] + [H("c02d::" + n, "quick", 900) for n in _d]
+    "harnesses": [H("c02w::" + n, "quick", 900) for n in _w] + [H("c02d::" + n, "quick", 900, allow_unsat_covers=["empty input incomplete", "15 bytes incomplete", "len == 9"]) for n in _d]
+                 + [H("c02d::" + n, "thorough", 1800) for n in _dt]
+                 + [H("c02w::" + n, "thorough", 900) for n in _wt]
                  + [H(e["name"], e["tier"], 900) for e in _cat["w_arg"]],
 }
 
-_c04 = ["c04_nonverbose_min_nofilter", "c04_nonverbose_ext_storage_nofilter", "c04_nonverbose_ext_storage_dropall", "c04_nonverbose_min_dropall",
-        "c04_control_nofilter", "c04_control_allnone", "c04_verbose_bool_nofilter", "c04_verbose_bool_level", "c04_verbose_string_storage_nofilter",
-        "c04_nettrace_nofilter", "c04_skipper_storage_shapes", "c04_validated_payload_length_all"]
 PROPS["C04"] = {
     "level": "model_checking", "level_text": "wip", "level_note": "wip", "not_claimed": True,
     "functions": [], "bounds": "", "outside": "", "assumptions": COMMON_ASSUME, "trusted_base": [],
-    "harnesses": [H("c04::" + n, "quick", 1200) for n in _c04],
+    "harnesses": [H("c04::c04_skipper_storage_shapes", "quick", 900), H("c04::c04_validated_payload_length_all", "quick", 300)]
+                 + [H(e["name"], e["tier"], 900) for e in _cat["c04"]],
 }
-_c05 = ["c05_nonverbose_min", "c05_control_storage_0_16", "c05_control_storage_16_31", "c05_verbose_bool_allfields_0_14", "c05_verbose_bool_allfields_14_31",
-        "c05_verbose_string_0_12", "c05_verbose_string_12_27", "c05_verbose_noargs_shortids", "c05_nettrace_storage_0_16", "c05_nettrace_storage_16_37"]
 PROPS["C05"] = {
     "level": "model_checking", "level_text": "wip", "level_note": "wip", "not_claimed": True,
     "functions": [], "bounds": "", "outside": "", "assumptions": COMMON_ASSUME, "trusted_base": [],
-    "harnesses": [H("c05::" + n, "quick", 1200) for n in _c05],
+    "harnesses": [H(e["name"], e["tier"], 900) for e in _cat["c05"]],
 }
 
 PROPS["C07"] = {
@@ -232,7 +241,22 @@ PROPS["C16"] = {
 PROPS["C10"] = {
     "level": "model_checking", "level_text": "wip", "level_note": "wip", "not_claimed": True,
     "functions": [], "bounds": "", "outside": "", "assumptions": COMMON_ASSUME, "trusted_base": [],
-    "harnesses": [H("c10::" + n, "quick", 900) for n in ["c10_level_distribution_new_buckets", "c10_level_distribution_merge_is_sum", "c10_merge_two_parts_a0",
-                  "c10_merge_two_parts_a1", "c10_merge_two_parts_a2", "c10_merge_two_parts_a3", "c10_merge_two_parts_a4", "c10_merge_three_parts_associative",
+    "harnesses": [H("c10::" + n, "quick", 900) for n in ["c10_level_distribution_new_buckets", "c10_level_distribution_merge_is_sum", "c10_merge_34", "c10_merge_12", "c10_merge_11",
+                  "c10_merge_03", "c10_merge_30", "c10_merge_24", "c10_merge_41", "c10_merge_00", "c10_merge_tables_independent", "c10_merge_three_parts_associative",
                   "c10_scan_visits_each_message_once"]],
 }
+
+PROPS["C03"] = {
+    "level": "model_checking", "level_text": "wip", "level_note": "wip", "not_claimed": True,
+    "functions": [], "bounds": "", "outside": "", "assumptions": COMMON_ASSUME, "trusted_base": [],
+    "harnesses": [H("c03::" + n, "quick", 1200, mem_checks=True) for n in ["c03_skip_storage_header_any_bytes", "c03_consume_msg_any_header_bytes", "c03_corrupt_verbose_u16_htyp",
+                  "c03_corrupt_verbose_u16_len", "c03_corrupt_verbose_u16_msin_noar", "c03_corrupt_verbose_u16_ids", "c03_corrupt_verbose_u16_typeinfo"]]
+                 + [H("c02w::c02w_message_whole_nonverbose_min", "quick", 1200), H("c03::c03_len_arith_long_name", "quick", 1200, mem_checks=True)],
+}
+
+PROPS["C08"] = {
+    "level": "model_checking", "level_text": "wip", "level_note": "wip", "not_claimed": True,
+    "functions": [], "bounds": "", "outside": "", "assumptions": COMMON_ASSUME, "trusted_base": [],
+    "harnesses": [H("c08::" + n, "quick", 1500) for n in ["c08_two_messages_any_schedule", "c08_any_stream_same_as_blocking_6"]],
+}
+
